@@ -60,6 +60,7 @@ def standin(tier, seed):
         yield "displacement move that groups two exchange particles per label", Atoms("Cu"), [("xa", lambda: ExchangeMove(np.arange(4), bias_towards_insert=0.0)), ("d", lambda: DisplacementMove(G.copy(), Ball(0.2)))], None, None
         L1, L2 = np.array([0, 1, -1, -1]), np.array([-1, -1, 0, 1])
         yield "composite of two exchange moves that number disjoint particles independently", Atoms("Cu"), [("xa", lambda: deleting_only(ExchangeMove(L1.copy()) + ExchangeMove(L2.copy())))], None, None
+        yield "deletion of two diatomic particles in one trial (labels group two atoms each)", Atoms("CO", positions=[[0, 0, 0], [0, 0, 1.1]]), [("xa", lambda: deleting_only(ExchangeMove(G.copy(), TranslationRotation()) * 2))], None, None
         yield "exchange * 2", Atoms("Cu"), [("xx", lambda: ExchangeMove(L.copy()) * 2), ("d", lambda: DisplacementMove(L.copy(), Ball(0.2)))], None, "gc:inserted_particles_share_a_label"
         yield "molecular composite a + b", Atoms("CO", positions=[[0, 0, 0], [0, 0, 1.1]]), [("xx", lambda: ExchangeMove(L.copy(), TranslationRotation()) + ExchangeMove(L.copy(), TranslationRotation())), ("d", lambda: DisplacementMove(L.copy(), Ball(0.2)))], None, "gc:inserted_particles_share_a_label"
 
@@ -152,7 +153,7 @@ def standin(tier, seed):
                 V.add(f"{name}:particle_counter", case, f"counter {sim.number_of_exchange_particles}, expected {count}"); break
             if template != t0 or any(not np.array_equal(template.arrays[k], t0.arrays[k]) for k in t0.arrays) or len(template) != len(t0):
                 V.add(f"{name}:template_modified", case, "exchange template changed"); break
-    return V.result(bound=f"9 move tables (atomic / diatomic species, default labels None / 0 / -1, shared and multiplied moves, composites) x {steps} steps")
+    return V.result(bound=f"10 move tables (atomic / diatomic species, default labels None / 0 / -1, shared and multiplied moves, composites) x {steps} steps")
 
 
 def replay(case):
